@@ -54,6 +54,10 @@ func ZZ_C19_histogram_Encode_validates_measurement() {
 //zz: prop=C19 tier=quick backend=bv timeout=300
 func ZZ_C19_histogram_gadget_calls_cover_the_measurement() {
 	length, chunk := uint(zzU8("length")), uint(zzU8("chunkLen"))
+	if zzThorough() {
+		length, chunk = uint(zzU16("length16")), uint(zzU16("chunkLen16"))
+		zzAssumeNote(length < 4096 && chunk < 4096, "bound (thorough tier): length, chunkLen < 4096")
+	}
 	zzAssumeNote(chunk > 0 && length > 0, "New refuses a zero length or chunk length")
 	h := newFlpHistogram(length, chunk)
 	calls := h.NumGadgetCalls
